@@ -44,7 +44,15 @@ RULE = (
     "two operands parsed from files must equal dict equality of the contents in all four {still serialised, fully "
     "accessed}^2 parse states, for an operand parsed from the same bytes, from the file written with every key inserted "
     "in the opposite order at every level, from two perturbed contents, and (text flavour) from five hand-written "
-    "layouts of the same content (wide padding, double quotes, extra comment lines, one-row loop_, blank lines)."
+    "layouts of the same content (wide padding, double quotes, extra comment lines, one-row loop_, blank lines). "
+    "dimension families (each a complete product of the listed palettes): wide = value lengths straddling 10/64/100/256/"
+    "1000/4096 x 5 value templates x 5 positions x 3 name-length pairs; many = row counts 9..11/99..101/1000, column counts "
+    "9..11/33/100, 9..11/101 categories / blocks (both flavours) x 10 awkward values x first/middle/last position, and "
+    "uniform tables; flavour = 25 data flavours x 12 mask flavours x 3 construction routes (text) and 16 x 7 (BinaryCIF); "
+    "alias = arguments unchanged by construction / reading / writing, observations repeatable and equality-preserving, "
+    "one object under two keys / in two parents, sharing with arguments recorded as unspecified; reuse = one file object "
+    "written, modified through the mapping interface (11 scenarios, 93 representatives, 2 layouts) or refused (3 scenarios) "
+    "and written again vs a freshly built file."
 )
 ASSUMPTIONS = [
     "the strings '.' and '?' are generated only in the mask role (biotite infers the mask from the bare tokens)",
@@ -100,6 +108,13 @@ def bounds(tier):
         "container_inits": sorted(INITS),
         "content_law_operands": ["same_text", "reversed_order", "perturbed x2"] + ["foreign_" + v for v in FOREIGN_VARIANTS],
         "content_law_parse_states": ["%s_%s" % c for c in PARSE_COMBOS],
+        "dim_families": {"wide": {"lengths": WIDE_LENGTHS, "templates": WIDE_TEMPLATES, "positions_RCrc": WIDE_POSITIONS,
+                                  "name_lengths_column_category": WIDE_NAMES},
+                         "many": {"rows": MANY_ROWS, "columns": MANY_COLS, "categories_or_blocks": MANY_ELEMS},
+                         "flavour": {"text_data": sorted(DATA_FLAVOURS), "text_mask": MASK_FLAVOURS,
+                                     "bin_data": sorted(BIN_DATA_FLAVOURS), "bin_mask": BIN_MASK_FLAVOURS},
+                         "alias": {"inputs": ALIAS_INPUTS, "two_parents": TWO_PARENT_SCENARIOS},
+                         "reuse": {"scenarios": REUSE_SCENARIOS + REFUSED_SCENARIOS}},
     }
 
 
